@@ -1,12 +1,22 @@
-"""Entry point: ./check <property> [--tier quick|thorough] [--replay path]."""
+"""Entry point: ./check <property> [--tier quick|thorough] [--replay path].
+
+Check modules are discovered by file name: harness/cNN_<name>.py serves property CNN.
+"""
+import glob
 import importlib
 import os
 import sys
 import traceback
 
-MODULES = {
-    "C12": "harness.c12_router",
-}
+HERE = os.path.dirname(os.path.abspath(__file__))
+
+
+def modules():
+    res = {}
+    for p in sorted(glob.glob(os.path.join(HERE, "c[0-9][0-9]_*.py"))):
+        name = os.path.basename(p)[:-3]
+        res["C" + name[1:3]] = "harness." + name
+    return res
 
 
 def main(argv):
@@ -25,11 +35,12 @@ def main(argv):
         else:
             print("unknown argument", a)
             return 2
-    if prop not in MODULES:
+    mods = modules()
+    if prop not in mods:
         print("no check for", prop)
         return 2
-    mod = importlib.import_module(MODULES[prop])
     try:
+        mod = importlib.import_module(mods[prop])
         if replay:
             return mod.replay(replay)
         return mod.run()
